@@ -242,6 +242,15 @@ func freeTableRef(rt *rapid.T) TableRef {
 	return t
 }
 
+// listLen draws the length of a list of the grammar: usually 1-6, one time in
+// twenty-five 7-40 (lengths around 8, 16 and 32 included).
+func listLen(rt *rapid.T, label string) int {
+	if rapid.IntRange(0, 24).Draw(rt, label+"_long") == 0 {
+		return rapid.SampledFrom([]int{7, 8, 9, 11, 15, 16, 17, 24, 32, 33, 40}).Draw(rt, label+"_n")
+	}
+	return rapid.IntRange(1, 6).Draw(rt, label)
+}
+
 // FreeSelect draws a syntactically valid SELECT over the whole supported
 // grammar, with no regard for any schema. With aggregates it keeps the
 // parser's own GROUP BY validation satisfied (every plain column of the select
@@ -253,7 +262,7 @@ func FreeSelect(rt *rapid.T) Select {
 	if !aggregate && rapid.IntRange(0, 3).Draw(rt, "star") == 0 && hasFrom {
 		q.Items = []SelItem{{Kind: "star"}}
 	} else {
-		n := rapid.IntRange(1, 6).Draw(rt, "nitems")
+		n := listLen(rt, "nitems")
 		usedCols := map[string]bool{}
 		for i := 0; i < n; i++ {
 			it := SelItem{}
@@ -340,6 +349,9 @@ func FreeSelect(rt *rapid.T) Select {
 		return q
 	}
 	no := rapid.SampledFrom([]int{0, 0, 1, 2, 3, 6}).Draw(rt, "norder")
+	if no > 0 && rapid.IntRange(0, 19).Draw(rt, "norder_long") == 0 {
+		no = rapid.SampledFrom([]int{7, 9, 16, 17, 33}).Draw(rt, "norder_n")
+	}
 	for i := 0; i < no; i++ {
 		q.OrderBy = append(q.OrderBy, OrderKey{Col: freeColRef(rt), Dir: rapid.SampledFrom([]string{"", "asc", "desc"}).Draw(rt, "dir")})
 	}
@@ -373,13 +385,13 @@ func FreeStmt(rt *rapid.T) AnyStmt {
 		return AnyStmt{Kind: "select", Select: &q}
 	case "insert":
 		s := model.Stmt{Kind: "insert", Table: IdentX(rt, "table", tablePool)}
-		ncol := rapid.IntRange(1, 6).Draw(rt, "ncol")
+		ncol := listLen(rt, "ncol")
 		if rapid.Bool().Draw(rt, "collist") {
 			for i := 0; i < ncol; i++ {
 				s.InsCols = append(s.InsCols, IdentX(rt, "col", colPool))
 			}
 		}
-		nrows := rapid.IntRange(1, 6).Draw(rt, "nrows")
+		nrows := listLen(rt, "nrows")
 		for r := 0; r < nrows; r++ {
 			var row []model.Val
 			for i := 0; i < ncol; i++ {
@@ -394,7 +406,7 @@ func FreeStmt(rt *rapid.T) AnyStmt {
 		return AnyStmt{Kind: "dml", DML: &s}
 	case "update":
 		s := model.Stmt{Kind: "update", Table: IdentX(rt, "table", tablePool)}
-		for i := rapid.IntRange(1, 6).Draw(rt, "nset"); i > 0; i-- {
+		for i := listLen(rt, "nset"); i > 0; i-- {
 			o := freeOperand(rt, false)
 			for o.Lit == nil {
 				o = freeOperand(rt, false)
